@@ -783,23 +783,26 @@ class BptkServer(Flask):
         
         instance = self._instance_manager.get_instance(instance_uuid)
 
-        if(instance.is_locked()):
+        if not instance.lock():
             resp = make_response('{"error": "instace is locked"}', 500)
             resp.headers['Content-Type'] = 'application/json'
             resp.headers['Access-Control-Allow-Origin'] = '*'
             return resp
 
-        if not request.is_json:
-            result = instance.run_step()
-        else:
-            content = request.get_json()
-            if "settings" in content:
-                result = instance.run_step(settings=content["settings"], flat="flatResults" in content and content["flatResults"] == True)
+        try:
+            if not request.is_json:
+                result = instance.run_step()
             else:
-                resp = make_response('{"error": "expecting settings to be set"}', 500)
-                resp.headers['Content-Type'] = 'application/json'
-                resp.headers['Access-Control-Allow-Origin'] = '*'
-                return resp
+                content = request.get_json()
+                if "settings" in content:
+                    result = instance.run_step(settings=content["settings"], flat="flatResults" in content and content["flatResults"] == True)
+                else:
+                    resp = make_response('{"error": "expecting settings to be set"}', 500)
+                    resp.headers['Content-Type'] = 'application/json'
+                    resp.headers['Access-Control-Allow-Origin'] = '*'
+                    return resp
+        finally:
+            instance.unlock()
 
         if result is not None:
             resp = make_response(jsonpickle.dumps(result), 200)
@@ -830,6 +833,7 @@ class BptkServer(Flask):
             return resp
         
         result = []
+        locked = False
         try:
             instance = self._instance_manager.get_instance(instance_uuid)
             if not request.is_json:
@@ -838,7 +842,8 @@ class BptkServer(Flask):
                 resp.headers['Access-Control-Allow-Origin'] = '*'
                 return resp
 
-            if(instance.is_locked()):
+            locked = instance.lock()
+            if not locked:
                 resp = make_response('{"error": "instace is locked"}', 500)
                 resp.headers['Content-Type'] = 'application/json'
                 resp.headers['Access-Control-Allow-Origin'] = '*'
@@ -846,10 +851,8 @@ class BptkServer(Flask):
             content = request.get_json()
             if "numberSteps" in content:
                 if "settings" in content:
-                    instance.lock()
                     for i in range(0,content["numberSteps"]):
                         result.append(instance.run_step(settings=content["settings"], flat="flatResults" in content and content["flatResults"] == True))
-                    instance.unlock()
                 else:
                     resp = make_response('{"error": "expecting settings to be set"}', 500)
                     resp.headers['Content-Type'] = 'application/json'
@@ -861,7 +864,10 @@ class BptkServer(Flask):
                 resp.headers['Access-Control-Allow-Origin'] = '*'
                 return resp
         except:
-            instance.unlock()
+            pass
+        finally:
+            if locked:
+                instance.unlock()
         if result is not None:
             resp = make_response(jsonpickle.dumps(result), 200)
         else:
@@ -903,15 +909,22 @@ class BptkServer(Flask):
                 resp.headers['Access-Control-Allow-Origin'] = '*'
                 return resp
 
-        if(instance.is_locked()):
+        if not instance.lock():
             resp = make_response('{"error": "instace is locked"}', 500)
             resp.headers['Content-Type'] = 'application/json'
             resp.headers['Access-Control-Allow-Origin'] = '*'
             return resp
 
+        lock_held = [True]
+
+        def release_lock():
+            # runs when the stream ends - completion, error or client gone - and when the response is closed
+            if lock_held[0]:
+                lock_held[0] = False
+                instance.unlock()
+
         def streamer():
             try:
-                instance.lock()
                 yield "["
                 first = True
                 while instance.progress() <= 1.0:
@@ -930,11 +943,14 @@ class BptkServer(Flask):
                         yield '{"error": "no data was returned from run_step"}'
                 yield "]"
             except:
-                instance.unlock()
+                pass
+            finally:
+                release_lock()
             if self._external_state_adapter != None:
                 self._external_state_adapter.save_instance(self._instance_manager._get_instance_state(instance_uuid))
 
         resp = Response(streamer())
+        resp.call_on_close(release_lock)
         resp.headers['Content-Type'] = 'application/json'
         resp.headers['Access-Control-Allow-Origin'] = '*'
         return resp
